@@ -308,6 +308,8 @@ def rand_cfg(rnd, focus="all"):
         c["filter"] = field("f") if c["split"] == NOE or rnd.random() < 0.5 else field("f", up=0)
     if rnd.random() < 0.5:
         names = rnd.sample(["A", "B", "C", "id", "k1"], rnd.choice([1, 2, 3]))
+        if len(names) > 1 and rnd.random() < 0.15:
+            names[-1] = names[0]            # a name given twice: one member, at the first position, with the later value
         sels = []
         for nm in names:
             e = rnd.choice([field("k1"), field("k2"), field("g"), field("id"), field("missing"), SELF, path(["items", 0, "k1"]), field("g", up=1),
